@@ -17,7 +17,7 @@ def build(ctx):
     eng = ctx.engine('lib', loop_bound=100)
     ctx.bounds = {'blank-line clamp': 'newline_count, trailing newlines, both bounds symbolic < 2^32 with lower <= upper', 'indent widths': '<= 86 columns (covers the 80-column buffer boundary on both sides)',
                   'tab_spaces': '1..=8', 'newline conversion': 'per character step (any length) for Windows; std str::replace semantics on strings <= 6 chars for Unix'}
-    ctx.outside = ['that all indentation goes through Indent::to_string', 'copied code / skip_empty_lines (span code)', 'at most one blank line inside lists (list machinery)',
+    ctx.outside = ['that all indentation goes through Indent::to_string', 'copied code (span code)', 'at most one blank line inside lists (list machinery)',
                    'blank_lines_lower_bound > blank_lines_upper_bound (misconfiguration)']
     ctx.assumptions = ['FormatLines.newline_count = number of trailing newline characters of the buffer (scanner invariant, C07)',
                        'str::replace = leftmost non-overlapping replacement (SMT-LIB str.replace_all)', 'Chars/Peekable cursors, str::repeat, push_str observed']
@@ -25,7 +25,23 @@ def build(ctx):
     part_truncate(ctx, eng)
     part_indent(ctx, eng)
     part_newline(ctx, eng)
-    part_leading_blank(ctx, eng)
+    # leading blank lines: the one-step harness over the loop of skip_empty_lines, and the whole function over short symbolic texts;
+    # either may decline code it cannot follow (a rewrite without a search loop / with text methods outside strmodel), not both
+    declined = []
+    for part, args in ((part_leading_blank, ()), (part_leading_blank_whole, (3 if ctx.tier == 'quick' else 5,))):
+        mark = len(ctx.obls)
+        try:
+            part(ctx, eng, *args)
+        except (Unsupported, Inconclusive) as e_:
+            del ctx.obls[mark:]
+            eng.stubs = []
+            eng.lenient = False
+            eng.inline_only = None
+            declined.append('%s: %s' % (part.__name__, str(e_)[:160]))
+    if len(declined) == 2:
+        raise Inconclusive('skip_empty_lines: neither harness applies (%s)' % '; '.join(declined))
+    for d_ in declined:
+        ctx.notes.append('skip_empty_lines: ' + d_ + ' - decided by the other harness')
     part_leading_whitespace(ctx, eng)
     part_auto_end_to_end(ctx, eng)
     # which text the emitter gets as the original (a fixed newline style must be compared with the bytes on disk): kernel shared with C06
@@ -565,8 +581,161 @@ def part_leading_blank(ctx, eng):
     eng.inline_only = None
 
 
+def replay_leading_text(model, r):
+    """the model's text in front of an item / a comment, as a file and as an out-of-line module: the emitted text must not start with a blank line"""
+    ks = sorted((int(k[4:]), v) for k, v in (model or {}).items() if re.fullmatch(r'lead\d+', k) and isinstance(v, int))
+    text = ''
+    for _, v in ks:                      # the white-space prefix of the model's text; what follows it is one of the tails below
+        if v not in (9, 10, 11, 12, 13, 32):
+            break
+        text += chr(v)
+    bins = ensure_bins()
+    rf = os.path.join(bins, 'rustfmt')
+    d = os.path.join(BUILD, 'scratch', 'c08lead-%d' % os.getpid())
+    shutil.rmtree(d, ignore_errors=True)
+    os.makedirs(d)
+    found = []
+    for tail in ('fn a() {}\n', '// first\nfn a() {}\n', '#![allow(x)]\nfn a() {}\n'):
+        p = os.path.join(d, 'x.rs')
+        with open(p, 'w', newline='', encoding='utf-8') as f:
+            f.write(text + tail)
+        res = subprocess.run([rf, '--emit', 'stdout', '--quiet', p], capture_output=True, env=run_env(), timeout=60, cwd=d)
+        out = res.stdout.decode('utf-8', 'replace')
+        if res.returncode == 0 and out and (out[0] in '\n\r \t'):
+            found.append('leading text %r before %r: the output starts with %r' % (text, tail[:12], out[:12]))
+    shutil.rmtree(d, ignore_errors=True)
+    return {'reproduced': bool(found), 'detail': found[:3]}
+
+
+def part_leading_blank_whole(ctx, eng, N):
+    """skip_empty_lines as a whole function over symbolic ASCII texts of every length 0..N standing between the cursor and `end_pos`
+    (strmodel.py; the snippet provider = slices of that text): afterwards the cursor stands behind the last line feed of the maximal
+    all-whitespace prefix - every leading blank line is skipped and nothing else."""
+    import strmodel
+    sel = eng.find('skip_empty_lines', self_ty='FmtVisitor', file='src/visitor.rs')
+    BASE = 100
+    nob = 0
+    lp_idx = eng.src.field_index('FmtVisitor', 'last_pos', 'src/visitor.rs')
+    for n in range(0, N + 1):
+        eng.stubs = []
+        eng.lenient = True
+        eng.inline_only = [re.compile(r'skip_empty_lines|FmtVisitor::<.*>::next_span$|::next_span$')]
+        M = strmodel.Model(eng)
+        M.install()
+        text = strmodel.sym_text(n, 'lead')
+        cs = list(text.items)
+
+        def off(eng_, st_, v, what):
+            v = deref(eng_, st_, v)
+            if not (isinstance(v, Tup) and len(v.items) == 1 and isinstance(v.items[0], BV)):
+                raise Unsupported('%s: not a BytePos: %r' % (what, v))
+            k = eng_.concrete_under(st_, v.items[0])
+            if k is None:
+                raise Unsupported('%s: position not determined on the path' % what)
+            return k - BASE
+
+        def span_of(eng_, st_, sp, what):
+            if not (isinstance(sp, Tup) and sp.name == 'Span2'):
+                raise Unsupported('%s of %r' % (what, sp))
+            lo, hi = off(eng_, st_, sp.items[0], what), off(eng_, st_, sp.items[1], what)
+            if not (0 <= lo <= hi <= n):
+                return None
+            return lo, hi
+
+        def span_after(eng_, st_, args, ci):
+            pat = deref(eng_, st_, args[2])
+            if not (isinstance(pat, StrVal) and pat.s == '\n'):
+                raise Unsupported('opt_span_after(%r)' % (pat,))
+            r_ = span_of(eng_, st_, args[1], 'opt_span_after')
+            if r_ is None:
+                return NONE
+            lo, hi = r_
+            res, live = [], [st_]
+            for i in range(lo, hi):
+                nxt = []
+                p = cs[i].e == 10
+                for s1 in live:
+                    t_ok, f_ok = eng_.feasible(s1, p), eng_.feasible(s1, z3.Not(p))
+                    if t_ok and f_ok:
+                        s2 = s1.fork()
+                        s2.assume(z3.Not(p))
+                        s1.assume(p)
+                        res.append((s1, 'ret', some(Tup([bv_const(BASE + i + 1, 'u32')], 'BytePos'))))
+                        nxt.append(s2)
+                    elif t_ok:
+                        res.append((s1, 'ret', some(Tup([bv_const(BASE + i + 1, 'u32')], 'BytePos'))))
+                    else:
+                        nxt.append(s1)
+                live = nxt
+            for s1 in live:
+                res.append((s1, 'ret', NONE))
+            return res
+
+        def opt_snippet(eng_, st_, args, ci):
+            r_ = span_of(eng_, st_, args[1], 'opt_snippet')
+            if r_ is None:
+                return NONE
+            return some(Seq(cs[r_[0]:r_[1]]))
+
+        def bp_val(eng_, st_, v):
+            v = deref(eng_, st_, v)
+            if isinstance(v, Tup) and len(v.items) == 1 and isinstance(v.items[0], BV):
+                return v.items[0].e
+            raise Unsupported('BytePos operand %r' % (v,))
+
+        def bp_arith(eng_, st_, args, ci):
+            a, b = bp_val(eng_, st_, args[0]), bp_val(eng_, st_, args[1])
+            return Tup([BV(a + b if ci.func.endswith('add') else a - b, 'u32')], 'BytePos')
+
+        def bp_cmp(eng_, st_, args, ci):
+            a, b = bp_val(eng_, st_, args[0]), bp_val(eng_, st_, args[1])
+            op = ci.func.rsplit('::', 1)[1]
+            return {'eq': a == b, 'ne': a != b, 'lt': z3.ULT(a, b), 'le': z3.ULE(a, b), 'gt': z3.UGT(a, b), 'ge': z3.UGE(a, b)}[op]
+        eng.stub(r'opt_span_after$', span_after, 'SnippetProvider::opt_span_after(span, "\\n") = the position behind the first line feed of the text in the span (forks on it)')
+        eng.stub(r'opt_snippet$', opt_snippet, 'FmtVisitor::opt_snippet(span) = that slice of the symbolic text')
+        eng.stub(r'^utils::mk_sp$|::mk_sp$', lambda e, s_, a, c: Tup([a[0], a[1]], 'Span2'), 'mk_sp(lo, hi) = the pair')
+        eng.stub(r'^<BytePos as (std::ops::)?(Add|Sub)>::(add|sub)$', bp_arith, 'BytePos + / - BytePos on the u32 inside (wrapping like the release build of rustc_span)')
+        eng.stub(r'^<BytePos as Partial(Eq|Ord)>::(eq|ne|lt|le|gt|ge)$', bp_cmp, 'BytePos comparisons on the u32 inside')
+        eng.stub(r'<BytePos as (rustc_span::)?Pos>::from_usize$', lambda e, s_, a, c: Tup([BV(z3.Extract(31, 0, a[0].e), 'u32')], 'BytePos'), 'BytePos::from_usize = truncation')
+        eng.stub(r'<BytePos as (rustc_span::)?Pos>::to_usize$', lambda e, s_, a, c: BV(z3.ZeroExt(32, bp_val(e, s_, a[0])), 'usize'), 'BytePos::to_usize')
+        st = State()
+        for f in strmodel.ascii_facts(text):
+            st.assume(f)
+        vis = Opaque('FmtVisitor', 'visitor')
+        st.notes[('lazy', vis.ident, lp_idx)] = Tup([bv_const(BASE, 'u32')], 'BytePos')
+        selfref = eng.ref_to(st, vis, True)
+        endp = Tup([bv_const(BASE + n, 'u32')], 'BytePos')
+        outs = ctx.check_outcomes(eng.run(sel, [selfref, endp], st), 'skip_empty_lines(whole)')
+        mv = [c.e for c in cs]
+
+        for pi, o in enumerate(outs):
+            tag = 'skip_empty_lines-whole/n%d/p%d' % (n, pi)
+            if o.kind != 'ret':
+                ctx.prop(tag + '/no-panic', o.state.pc, z3.BoolVal(True), mv, replay_leading_text, twin=False)
+                continue
+            after = eng.read_ref(o.state, selfref)
+            lp = o.state.notes.get(('lazy', after.ident, lp_idx))
+            if not (isinstance(lp, Tup) and lp.items and isinstance(lp.items[0], BV)):
+                raise Inconclusive('last_pos after skip_empty_lines: %r' % (lp,))
+            # reference: j = length of the maximal white-space prefix; the cursor stands behind the last line feed among those j characters
+            is_ws = [z3.Or([c.e == w for w in strmodel.WS]) for c in cs]
+            exp = z3.BitVecVal(BASE, 32)
+            prefix_ws = z3.BoolVal(True)
+            for i in range(n):
+                prefix_ws = z3.And(prefix_ws, is_ws[i])
+                exp = z3.If(z3.And(prefix_ws, cs[i].e == 10), z3.BitVecVal(BASE + i + 1, 32), exp)
+            nob += 1
+            ctx.prop(tag + '/the-cursor-stands-behind-the-last-leading-blank-line', o.state.pc, lp.items[0].e != exp, mv, replay_leading_text, twin=False)
+        eng.stubs = []
+    eng.lenient = False
+    eng.inline_only = None
+    if not nob:
+        raise Inconclusive('skip_empty_lines(whole): nothing explored')
+    ctx.bounds['skip_empty_lines (whole function)'] = 'ASCII texts of every length 0..%d between the cursor and end_pos; cursor at source-map offset %d (concrete: the code only adds to it)' % (N, BASE)
+
+
 # ======================================================================================= (f) nothing is emitted for the leading whitespace of a file
-KF_LEAD = 'C08/leading-whitespace/format_missing-emits-a-newline-before-the-first-token'
+KF_LEAD ='C08/leading-whitespace/format_missing-emits-a-newline-before-the-first-token'
 
 
 def part_leading_whitespace(ctx, eng):
